@@ -161,6 +161,8 @@ type notif struct {
 func (e *env) presenceBarrier() ([]notif, error) {
 	e.sentSeq++
 	ch := fmt.Sprintf("a/zz%d/", e.sentSeq)
+	// keep-alive: the broker drops connections that send nothing for 120 s, and the watcher only listens
+	e.watcher.Send(packets.NewControlPacket(packets.Pingreq))
 	if codes, _, err := e.sentinel.Subscribe(7, e.key+"/"+ch); err != nil || codes[0] == 0x80 {
 		return nil, fmt.Errorf("sentinel subscribe: %v %v", codes, err)
 	}
